@@ -131,44 +131,28 @@ Proof.
 Qed.
 
 (** ** termination of [simple] from the rank certificate *)
-Definition bad (r : sres) : Prop := r = SFuel \/ r = SSelfRef.
+Definition bad (r : sres) : Prop := badb r = true.
 
 Lemma seq_simple_good rec opt elems acc :
   (forall e, In e (seq_prefix opt elems) -> ~ bad (rec e)) -> ~ bad (seq_simple rec opt elems acc).
 Proof.
-  revert acc. induction elems as [|e es IH]; intros acc H; cbn [seq_simple seq_prefix] in *.
-  - intros [Hb|Hb]; discriminate.
-  - assert (He : ~ bad (rec e)) by (apply H; left; reflexivity).
-    destruct (rec e) as [| | | |[h|]] eqn:Er.
-    + exfalso; apply He; left; reflexivity.
-    + exfalso; apply He; right; reflexivity.
-    + intros [Hb|Hb]; discriminate.
-    + intros [Hb|Hb]; discriminate.
-    + destruct (opt e) as [[|]|].
-      * apply IH. intros e' He'. apply H. right. exact He'.
-      * intros [Hb|Hb]; discriminate.
-      * intros [Hb|Hb]; discriminate.
-    + intros [Hb|Hb]; discriminate.
+  unfold bad. revert acc. induction elems as [|e es IH]; intros acc H; cbn [seq_simple seq_prefix] in *.
+  - cbn. discriminate.
+  - assert (He : badb (rec e) <> true) by (apply H; left; reflexivity).
+    destruct (rec e) as [| | | | |[h|]] eqn:Er; try (exfalso; apply He; reflexivity); try (cbn; discriminate).
+    destruct (opt e) as [[|]|]; try (cbn; discriminate).
+    apply IH. intros e' He'. apply H. right. exact He'.
 Qed.
 
 Lemma any_simple_good rec elems :
   (forall e, In e elems -> ~ bad (rec e)) -> ~ bad (any_simple rec elems).
 Proof.
-  induction elems as [|e es IH]; intros H; cbn [any_simple].
-  - intros [Hb|Hb]; discriminate.
-  - assert (He : ~ bad (rec e)) by (apply H; left; reflexivity).
-    assert (Hes : ~ bad (any_simple rec es)) by (apply IH; intros e' He'; apply H; right; exact He').
-    destruct (rec e) as [| | | |h].
-    + exfalso; apply He; left; reflexivity.
-    + exfalso; apply He; right; reflexivity.
-    + intros [Hb|Hb]; discriminate.
-    + intros [Hb|Hb]; discriminate.
-    + destruct (any_simple rec es) as [| | | |hs].
-      * exfalso; apply Hes; left; reflexivity.
-      * exfalso; apply Hes; right; reflexivity.
-      * intros [Hb|Hb]; discriminate.
-      * intros [Hb|Hb]; discriminate.
-      * intros [Hb|Hb]; discriminate.
+  unfold bad. induction elems as [|e es IH]; intros H; cbn [any_simple].
+  - cbn. discriminate.
+  - assert (He : badb (rec e) <> true) by (apply H; left; reflexivity).
+    assert (Hes : badb (any_simple rec es) <> true) by (apply IH; intros e' He'; apply H; right; exact He').
+    destruct (rec e) as [| | | | |h]; try (exfalso; apply He; reflexivity); try (cbn; discriminate).
+    destruct (any_simple rec es) as [| | | | |hs]; try (exfalso; apply Hes; reflexivity); cbn; discriminate.
 Qed.
 
 Section Ranked.
@@ -180,6 +164,9 @@ Section Ranked.
   (** every name on the crumb trail resolves to a node ranked at least as high as the current one *)
   Definition crumbs_ok (cr : list N) (n : N) : Prop :=
     forall X, In X cr -> exists t rt rn, deref g X = Some t /\ rank_of rk t = Some rt /\ rank_of rk n = Some rn /\ rn <= rt.
+  (** every [Ref] whose cell is being initialised is ranked strictly higher than the current node *)
+  Definition busy_ok (bs : list N) (n : N) : Prop :=
+    forall b, In b bs -> exists rb rn, rank_of rk b = Some rb /\ rank_of rk n = Some rn /\ rn < rb.
 
   Lemma lc_child_rank n r c :
     rank_of rk n = Some r -> In c (lc_children g n) -> exists rc, rank_of rk c = Some rc /\ rc < r.
@@ -196,45 +183,78 @@ Section Ranked.
     exists t, rt, rc. rewrite Hr in Hn. injection Hn as <-. repeat split; try assumption. lia.
   Qed.
 
-  Lemma simple_good : forall f n r cr,
-    rank_of rk n = Some r -> (N.to_nat r < f)%nat -> crumbs_ok cr n -> ~ bad (simple g f cr n).
+  Lemma busy_ok_child bs n c r rc :
+    rank_of rk n = Some r -> rank_of rk c = Some rc -> rc < r -> busy_ok bs n -> busy_ok bs c.
   Proof.
-    induction f as [|f IH]; intros n r cr Hr Hf Hcr; [lia|].
+    intros Hr Hrc Hlt H b Hb. destruct (H b Hb) as [rb [rn [Hrb [Hn Hl]]]].
+    exists rb, rc. rewrite Hr in Hn. injection Hn as <-. repeat split; try assumption. lia.
+  Qed.
+
+  Lemma simple_good : forall f n r bs cr,
+    rank_of rk n = Some r -> (N.to_nat r < f)%nat -> busy_ok bs n -> crumbs_ok cr n -> ~ bad (simple g f bs cr n).
+  Proof.
+    induction f as [|f IH]; intros n r bs cr Hr Hf Hbs Hcr; [lia|].
     cbn [simple].
-    assert (Hchild : forall c cr', In c (lc_children g n) -> crumbs_ok cr' n -> ~ bad (simple g f cr' c)).
-    { intros c cr' Hc Hcr'. destruct (lc_child_rank n r c Hr Hc) as [rc [Hrc Hlt]].
-      apply (IH c rc cr' Hrc); [lia|]. exact (crumbs_ok_child cr' n c r rc Hr Hrc Hlt Hcr'). }
+    assert (Hchild : forall c, In c (lc_children g n) -> ~ bad (simple g f bs cr c)).
+    { intros c Hc. destruct (lc_child_rank n r c Hr Hc) as [rc [Hrc Hlt]].
+      apply (IH c rc bs cr Hrc); [lia| |].
+      - exact (busy_ok_child bs n c r rc Hr Hrc Hlt Hbs).
+      - exact (crumbs_ok_child cr n c r rc Hr Hrc Hlt Hcr). }
     unfold lc_children in Hchild.
-    destruct (get_node g n) as [nd|] eqn:En; [|intros [Hb|Hb]; discriminate].
-    destruct nd as [name excl terms reset|elems terms gr|bt bs elems terms gr|excl elems terms gr|d elems terms|kind gr'|raws|raws|ts| | | |terms| | |];
-      try (intros [Hb|Hb]; discriminate).
+    destruct (get_node g n) as [nd|] eqn:En; [|unfold bad; cbn; discriminate].
+    destruct nd as [name excl terms reset|elems terms gr|bt bs' elems terms gr|excl elems terms gr|d elems terms|kind gr'|raws|raws|ts| | | |terms| | |];
+      try (unfold bad; cbn; discriminate).
     - (* Ref *)
+      destruct (mem_N n bs) eqn:Eb.
+      { exfalso. apply mem_N_In in Eb. destruct (Hbs n Eb) as [rb [rn [Hrb [Hn Hl]]]].
+        rewrite Hr in Hrb, Hn. injection Hrb as <-. injection Hn as <-. lia. }
       destruct (mem_N name cr) eqn:Em.
       + exfalso. apply mem_N_In in Em. destruct (Hcr name Em) as [t [rt [rn [Hd [Ht [Hn Hle]]]]]].
         rewrite Hr in Hn. injection Hn as <-.
         assert (Hc : In t (lc_children g n)) by (unfold lc_children; rewrite En, Hd; left; reflexivity).
         destruct (lc_child_rank n r t Hr Hc) as [rc [Hrc Hlt]]. rewrite Ht in Hrc. injection Hrc as <-. lia.
-      + destruct (deref g name) as [t|] eqn:Ed; [|intros [Hb|Hb]; discriminate].
+      + destruct (deref g name) as [t|] eqn:Ed; [|unfold bad; cbn; discriminate].
         assert (Hc : In t (lc_children g n)) by (unfold lc_children; rewrite En, Ed; left; reflexivity).
         destruct (lc_child_rank n r t Hr Hc) as [rc [Hrc Hlt]].
-        apply (IH t rc (name :: cr) Hrc); [lia|].
-        intros X [<-|HX].
-        * exists t, rc, rc. repeat split; try assumption. lia.
-        * destruct (Hcr X HX) as [t' [rt [rn [Hd [Ht [Hn Hle]]]]]].
-          exists t', rt, rc. rewrite Hr in Hn. injection Hn as <-. repeat split; try assumption. lia.
+        apply (IH t rc (n :: bs) (name :: cr) Hrc); [lia| |].
+        * intros b [<-|Hb].
+          -- exists r, rc. repeat split; assumption.
+          -- destruct (Hbs b Hb) as [rb [rn [Hrb [Hn Hl]]]].
+             exists rb, rc. rewrite Hr in Hn. injection Hn as <-. repeat split; try assumption. lia.
+        * intros X [<-|HX].
+          -- exists t, rc, rc. repeat split; try assumption. lia.
+          -- destruct (Hcr X HX) as [t' [rt [rn [Hd [Ht [Hn Hle]]]]]].
+             exists t', rt, rc. rewrite Hr in Hn. injection Hn as <-. repeat split; try assumption. lia.
     - (* Sequence *)
       apply seq_simple_good. intros e He. apply Hchild; assumption.
     - (* Bracketed *)
-      destruct (bracket_lookup g bs bt) as [p|]; [|intros [Hb|Hb]; discriminate].
-      destruct (deref g (bp_start p)) as [st|]; [|intros [Hb|Hb]; discriminate].
-      destruct (deref g (bp_end p)) as [en|]; [|intros [Hb|Hb]; discriminate].
-      apply Hchild; [left; reflexivity|assumption].
+      destruct (bracket_lookup g bs' bt) as [p|]; [|unfold bad; cbn; discriminate].
+      destruct (deref g (bp_start p)) as [st|]; [|unfold bad; cbn; discriminate].
+      destruct (deref g (bp_end p)) as [en|]; [|unfold bad; cbn; discriminate].
+      apply Hchild; left; reflexivity.
     - (* AnyNumberOf *)
       apply any_simple_good. intros e He. apply Hchild; assumption.
     - (* Delimited *)
       apply any_simple_good. intros e He. apply Hchild; assumption.
     - (* NodeMatcher *)
-      apply Hchild; [left; reflexivity|assumption].
+      apply Hchild; left; reflexivity.
+  Qed.
+
+  (** a left-corner cycle contradicts the certificate: ranks would have to decrease all the way round *)
+  Lemma lc_path_rank : forall rest a back ra,
+    rank_of rk a = Some ra -> lc_path_b g a rest back = true -> exists rb, rank_of rk back = Some rb /\ rb < ra.
+  Proof.
+    induction rest as [|b rest IH]; intros a back ra Ha H; cbn [lc_path_b] in H.
+    - apply mem_N_In in H. exact (lc_child_rank a ra back Ha H).
+    - apply andb_true_iff in H. destruct H as [Hs Hp]. apply mem_N_In in Hs.
+      destruct (lc_child_rank a ra b Ha Hs) as [rb [Hb Hlt]].
+      destruct (IH b back rb Hb Hp) as [rk' [Hk Hlt']]. exists rk'. split; [exact Hk|lia].
+  Qed.
+
+  Lemma lc_cycle_head_unranked c rest : lc_cycle_b g (c :: rest) = true -> rank_of rk c = None.
+  Proof.
+    cbn [lc_cycle_b]. intros H. destruct (rank_of rk c) as [r|] eqn:Er; [|reflexivity].
+    destruct (lc_path_rank rest c c r Er H) as [r' [Hr' Hlt]]. rewrite Er in Hr'. injection Hr' as <-. lia.
   Qed.
 End Ranked.
 
@@ -256,21 +276,52 @@ Proof.
 Qed.
 
 (** C14, termination: with a checked rank certificate, computing the first-token hint of any
-    reachable element, started as the parser starts it (no crumbs), neither loops (the model
-    never runs out of fuel above the rank) nor hits the self-reference panic. *)
+    reachable element, started as the parser starts it (no crumbs, no cell being initialised),
+    neither loops (the model never runs out of fuel above the rank), nor blocks in the [OnceLock]
+    of a [Ref] that is asked again from its own initialiser, nor hits the self-reference panic. *)
 Theorem simple_terminates_reachable g K ranks :
   closed_except_b g K = true -> rank_ok_b g (reach g) ranks = true ->
   forall n, reachable g n ->
   exists r, rank_of (mk_ranks ranks) n = Some r /\
-    forall f, (N.to_nat r < f)%nat -> simple g f [] n <> SFuel /\ simple g f [] n <> SSelfRef.
+    forall f, (N.to_nat r < f)%nat ->
+      simple g f [] [] n <> SFuel /\ simple g f [] [] n <> SHang /\ simple g f [] [] n <> SSelfRef.
 Proof.
   intros Hc Hr n Hn.
   pose proof (closed_check_inv g K _ Hc n Hn) as Hin.
   destruct (rank_ok_ranked g _ ranks Hr n Hin) as [r Hrn].
   exists r. split; [exact Hrn|]. intros f Hf.
-  pose proof (simple_good g (mk_ranks ranks) (rank_ok_dec g _ ranks Hr) f n r [] Hrn Hf) as H.
+  pose proof (simple_good g (mk_ranks ranks) (rank_ok_dec g _ ranks Hr) f n r [] [] Hrn Hf) as H.
+  assert (Hbs : busy_ok (mk_ranks ranks) [] n) by (intros X []).
   assert (Hcr : crumbs_ok g (mk_ranks ranks) [] n) by (intros X []).
-  specialize (H Hcr). unfold bad in H. split; intros E; apply H; [left|right]; exact E.
+  specialize (H Hbs Hcr). unfold bad in H.
+  repeat split; intros E; apply H; rewrite E; reflexivity.
+Qed.
+
+(** ... and conversely a left-corner cycle through a reachable element refutes every rank
+    certificate: the certificate is not merely "not found" by the translator, none exists. *)
+Theorem reachable_cycle_sound g path cyc :
+  reachable_cycle_b g path cyc = true ->
+  exists c rest, cyc = c :: rest /\ reachable g c /\ lc_cycle_b g cyc = true.
+Proof.
+  unfold reachable_cycle_b. destruct path as [|r rest]; [discriminate|]. destruct cyc as [|c crest]; [discriminate|].
+  rewrite !andb_true_iff. intros [[[Hroot Hsteps] Hlast] Hcyc].
+  destruct (deref g name_FileSegment) as [r'|] eqn:Er; [|discriminate].
+  apply N.eqb_eq in Hroot. subst r'. apply N.eqb_eq in Hlast.
+  exists c, crest. split; [reflexivity|]. split; [|exact Hcyc].
+  pose proof (path_steps_reach g r rest (reach_root g r Er) Hsteps) as Hreach.
+  assert (Hl : last (r :: rest) r = last rest r) by (destruct rest; reflexivity).
+  rewrite Hl in Hlast. rewrite Hlast in Hreach. exact Hreach.
+Qed.
+
+Theorem reachable_cycle_no_certificate g K path cyc :
+  closed_except_b g K = true -> reachable_cycle_b g path cyc = true ->
+  forall ranks, rank_ok_b g (reach g) ranks = false.
+Proof.
+  intros Hc H ranks. destruct (reachable_cycle_sound g path cyc H) as [c [rest [-> [Hreach Hcyc]]]].
+  destruct (rank_ok_b g (reach g) ranks) eqn:Hr; [|reflexivity]. exfalso.
+  pose proof (closed_check_inv g K _ Hc c Hreach) as Hin.
+  destruct (rank_ok_ranked g _ ranks Hr c Hin) as [r Hrc].
+  rewrite (lc_cycle_head_unranked g (mk_ranks ranks) (rank_ok_dec g _ ranks Hr) c rest Hcyc) in Hrc. discriminate.
 Qed.
 
 
@@ -316,11 +367,19 @@ Example ex_dangling_path : path_dangling_b g_ex_dangling [0; 1; 3; 4; 5; 10] 7 =
 Proof. vm_compute. reflexivity. Qed.
 Example ex_ranked : rank_ok_b g_ex (reach g_ex) ex_ranks = true.
 Proof. vm_compute. reflexivity. Qed.
-Example ex_simple : simple g_ex 8 [] 0 = SVal (Some ([3], [])) /\ simple g_ex 8 [] 6 = SVal (Some ([4], [])).
+Example ex_simple : simple g_ex 8 [] [] 0 = SVal (Some ([3], [])) /\ simple g_ex 8 [] [] 6 = SVal (Some ([4], [])).
 Proof. split; vm_compute; reflexivity. Qed.
-(** a left-recursive grammar has no rank certificate and [simple] hits the self-reference panic *)
+(** a left-recursive grammar has no rank certificate; asked for its hint as the parser asks
+    (node 0 or the [Ref] 2 itself) the [Ref] re-enters its own cell and blocks; asked through a
+    second [Ref] of the same name (node 3) the first one sees its name on the trail and panics *)
 Definition g_ex_leftrec :=
-  mk_graph [(0, NNode 1 1); (1, NSeq [2] [] false); (2, NRef 0 None [] false)] [] [(0, 0)] [].
-Example ex_leftrec : simple g_ex_leftrec 10 [] 0 = SSelfRef /\ closed_b g_ex_leftrec = true
+  mk_graph [(0, NNode 1 1); (1, NSeq [2] [] false); (2, NRef 0 None [] false); (3, NRef 0 None [] false)] [] [(0, 0)] [].
+Example ex_leftrec : simple g_ex_leftrec 10 [] [] 0 = SHang /\ simple g_ex_leftrec 10 [] [] 2 = SHang
+                     /\ simple g_ex_leftrec 10 [] [] 3 = SSelfRef /\ closed_b g_ex_leftrec = true
                      /\ rank_ok_b g_ex_leftrec (reach g_ex_leftrec) [(0, 2); (1, 1); (2, 0)] = false.
 Proof. repeat split; vm_compute; reflexivity. Qed.
+Example ex_leftrec_cycle : reachable_cycle_b g_ex_leftrec [0; 1; 2] [2; 0; 1] = true
+                           /\ hint_failures g_ex_leftrec 10 [0; 1; 2; 3] = [(0, 2); (1, 2); (2, 2); (3, 3)].
+Proof. split; vm_compute; reflexivity. Qed.
+Example ex_leftrec_no_certificate : forall ranks, rank_ok_b g_ex_leftrec (reach g_ex_leftrec) ranks = false.
+Proof. exact (reachable_cycle_no_certificate g_ex_leftrec [] [0; 1; 2] [2; 0; 1] (proj1 (proj2 (proj2 (proj2 ex_leftrec)))) (proj1 ex_leftrec_cycle)). Qed.
